@@ -457,7 +457,7 @@ pub fn run(run: &Run) {
         let msg = prop_oneof![1 => Just(Vec::new()), 4 => prop::collection::vec(any::<u8>(), 1..64), 1 => prop::collection::vec(any::<u8>(), 64..2048)];
         (id_kind(), msg, tamper, site).prop_map(|(kind, msg, tamper, site)| Case { kind, msg, tamper, site })
     };
-    run.prop_f("verify", run.tier.pick(1200, 30_000), sh, make_case, run_case);
+    run.prop_f("verify", run.tier.pick(36000, 600000), sh, make_case, run_case);
     // every bit position of one short message, for one seed-derived identity (thorough: also 4096 signature/key positions)
     let msg = b"exact message".to_vec();
     for bit in 0..(msg.len() as u32 * 8) {
